@@ -260,3 +260,33 @@ Theorem C20_dependency_reads_by_requirement_in_force : forall req ops o x,
   dep_run req (ops ++ [o]) = dep_run req ops ++ [x].
 Proof. exact GlueProofs.dep_reads_by_requirement_in_force. Qed.
 Print Assumptions C20_dependency_reads_by_requirement_in_force.
+
+(* ---- sequences of Interpreter._get_cfgs calls on one interpreter / one caching compiler ---- *)
+(* the configuration a (machine, subproject) gets is rustc's lines plus its own --cfg
+   flags, independent of every call made before it *)
+Theorem C20_get_cfgs_calls_independent : forall flagsof lines calls,
+  gc_session (mkG lines []) (map (GlueProofs.with_flags flagsof) calls) =
+  map (fun c => match get_cfgs lines (flagsof (fst c)) with
+                | Some d => Some (eval_cfg (snd c) d) | None => None end) calls.
+Proof. intros. apply GlueProofs.session_independent. apply GlueProofs.good_init. Qed.
+Print Assumptions C20_get_cfgs_calls_independent.
+
+(* ---- the consumer of eval_cfg: Interpreter._prepare_package over a sequence of machines ---- *)
+(* the machine prepared first requires the unconditional dependencies plus exactly the
+   target tables whose condition holds for it ... *)
+Theorem C20_prepare_first_machine_partial : forall targets cfg_of base h,
+  GlueProofs.all_evaluate targets (cfg_of h) ->
+  fst (prepare_package targets cfg_of (mkP base []) h) = Some (GlueProofs.merged targets (cfg_of h) base).
+Proof. exact GlueProofs.prepare_first_machine. Qed.
+Print Assumptions C20_prepare_first_machine_partial.
+(* ... a machine prepared later also gets the other machine's tables (the merge goes into
+   the one dict of the package): finding C20:target-deps-leak-across-machines *)
+Theorem C20_prepare_per_machine_refuted : exists targets cfg_of base,
+  GlueProofs.cond_holds (cfg_of false) (s2l "cfg(windows)", [s2l "winapi"]) = false /\
+  In (s2l "cfg(windows)", [s2l "winapi"]) targets /\
+  match prepare_session targets cfg_of (mkP base []) [true; false] with
+  | [_; Some l] => str_mem (s2l "winapi") l
+  | _ => false
+  end = true.
+Proof. exact GlueProofs.prepare_leak_refuted. Qed.
+Print Assumptions C20_prepare_per_machine_refuted.
